@@ -162,11 +162,22 @@ class Engine(object):
         if hasattr(sm, name):
             v = getattr(sm, name)
             if isinstance(v, types.FunctionType):
+                if getattr(v, "__primitive__", False):
+                    p = GhostPrim(name, self._concrete_prim(name, v))
+                    self.prims[name] = p
+                    return p
                 return self.funcref_of(v)
             if isinstance(v, (int, str, tuple, float, bool)):
                 return v
             return None
         return None
+
+    def _concrete_prim(self, name, pyf):
+        """A @primitive spec function without solver meaning: CPython evaluates it on concrete arguments."""
+        def f(ex, *args):
+            cargs = [to_py(a) for a in args]
+            return from_py(pyf(*cargs))
+        return f
 
     def _install_prims(self):
         def cnt(kind):
@@ -387,7 +398,10 @@ class Engine(object):
         if havoc:
             for path, t in havoc.items():
                 self.havoc_path(ex, env, path, t)
-        res = self.fresh_of_type(ex, c.get("returns", "None"), "ret_" + fq.rsplit(".", 1)[-1])
+        if c.get("result_is"):
+            res = fresh_copy(ex.spec_eval(c["result_is"], env))
+        else:
+            res = self.fresh_of_type(ex, c.get("returns", "None"), "ret_" + fq.rsplit(".", 1)[-1])
         env["result"] = res
         for (nm, e) in self.norm_named(c.get("ensures"), "post"):
             ex.ctx.assume(ex.spec_bool(e, env))
@@ -486,12 +500,29 @@ class Engine(object):
             ex.top_fq = fq
             outcome = None
             try:
-                env = self.make_params(ex, fref, contract)
+                env = self.make_params(ex, fref, contract,
+                                       bind=split_expr.get("bind") if isinstance(split_expr, dict) else None)
+                if isinstance(split_expr, dict):
+                    split_expr_s = split_expr.get("assume")
+                else:
+                    split_expr_s = split_expr
                 penv = dict(env)
+                if isinstance(split_expr, dict) and split_expr.get("module_state"):
+                    for path, expr in split_expr["module_state"].items():
+                        modname, _, attr = path.rpartition(".")
+                        real = getattr(self.module(modname), attr)
+                        w = ex.wrap(real, "module:" + path)
+                        val = ex.spec_eval(expr, penv)
+                        if isinstance(w, PDict) and isinstance(val, PDict):
+                            w.d = dict(val.d)
+                        elif isinstance(w, PList) and isinstance(val, PList):
+                            w.items = list(val.items)
+                        else:
+                            raise Unsupported("module_state of %s" % path)
                 for (nm, pre) in self.norm_named(contract.get("requires"), "pre"):
                     ctx.assume(ex.spec_bool(pre, penv))
-                if split_expr is not None:
-                    ctx.assume(ex.spec_bool(split_expr, penv))
+                if split_expr_s is not None:
+                    ctx.assume(ex.spec_bool(split_expr_s, penv))
                 for nm, expr in (contract.get("old") or {}).items():
                     penv[nm] = self.snapshot(ex.spec_eval(expr, penv))
                 ctx.writes = []
@@ -552,7 +583,7 @@ class Engine(object):
             return PDict(dict((k, self.snapshot(x)) for k, x in v.d.items()))
         return v
 
-    def make_params(self, ex, fref, contract):
+    def make_params(self, ex, fref, contract, bind=None):
         env = {}
         ptypes = contract.get("params") or {}
         a = fref.node.args
@@ -560,7 +591,10 @@ class Engine(object):
         for p in names:
             if p not in ptypes:
                 raise Unsupported("contract of %s gives no type for parameter %s" % (fref.fq, p))
-            v = self.fresh_of_type(ex, ptypes[p], p)
+            if bind and p in bind:
+                v = from_py(bind[p])
+            else:
+                v = self.fresh_of_type(ex, ptypes[p], p)
             if isinstance(v, (PList, PDict)) and v.origin is None:
                 v.origin = "param:" + p
             env[p] = v
@@ -627,7 +661,10 @@ class Engine(object):
             g = z3.BoolVal(False) if when is None else z3.Not(when)
             ctx.emit("post", pre + "/result-type", g, None, note="returned %r, declared %s" % (val, rt))
             return
-        for (nm, e) in self.norm_named(c.get("ensures"), "ensures"):
+        named_posts = self.norm_named(c.get("ensures"), "ensures")
+        if c.get("result_is"):
+            named_posts = [("result-is", "result == (%s)" % c["result_is"])] + named_posts
+        for (nm, e) in named_posts:
             try:
                 g = ex.spec_bool(e, env)
             except Unsupported:
@@ -717,6 +754,51 @@ def run_cvc5(smt2, timeout_ms):
         return "unknown"
     finally:
         os.unlink(path)
+
+
+def to_py(v):
+    """interpreter value -> plain Python value (only if fully concrete)."""
+    if v is None or isinstance(v, (bool, int, float, str, bytes)):
+        return v
+    if isinstance(v, SStr):
+        c = try_concrete_str(v)
+        if c is None:
+            raise Unsupported("primitive spec function applied to a symbolic string")
+        return c
+    if isinstance(v, (SInt, SBool, SReal)):
+        raise Unsupported("primitive spec function applied to a symbolic value")
+    if isinstance(v, PList):
+        return [to_py(x) for x in v.items]
+    if isinstance(v, tuple):
+        return tuple(to_py(x) for x in v)
+    if isinstance(v, PDict):
+        return dict((k, to_py(x)) for k, x in v.d.items())
+    if isinstance(v, PSet):
+        return set(to_py(x) for x in v.items)
+    raise Unsupported("primitive spec function applied to %r" % (v,))
+
+
+def from_py(v):
+    if v is None or isinstance(v, (bool, int, float, str, bytes)):
+        return v
+    if isinstance(v, list):
+        return PList([from_py(x) for x in v])
+    if isinstance(v, tuple):
+        return tuple(from_py(x) for x in v)
+    if isinstance(v, dict):
+        return PDict(dict((k, from_py(x)) for k, x in v.items()))
+    if isinstance(v, (set, frozenset)):
+        return PSet([from_py(x) for x in sorted(v, key=repr)])
+    raise Unsupported("value %r from a primitive spec function" % (v,))
+
+
+def fresh_copy(v):
+    """A value returned through a contract is a NEW object (no aliasing with spec-side values)."""
+    if isinstance(v, PList):
+        return PList([fresh_copy(x) for x in v.items])
+    if isinstance(v, PDict):
+        return PDict(dict((k, fresh_copy(x)) for k, x in v.d.items()))
+    return v
 
 
 def decode(v, m, maxlen=48):
